@@ -110,9 +110,12 @@ def parse_lib(text):
     Address = _lib()
     try:
         a = Address(text)
-        return f'ok {a.wc} {hx(a.hash_part)} {int(bool(a.is_bounceable))} {int(bool(a.is_test_only))}', a
     except Exception:
         return 'err', None
+    # the constructor RETURNED: whatever it built is the parse result (an object without workchain / hash is not "an error")
+    if not isinstance(a.wc, int) or not isinstance(a.hash_part, (bytes, bytearray)):
+        return f'ok-unusable wc={a.wc!r} hash={a.hash_part!r}', a
+    return f'ok {a.wc} {hx(a.hash_part)} {int(bool(a.is_bounceable))} {int(bool(a.is_test_only))}', a
 
 
 def fl(uf, url, b, t):
